@@ -89,7 +89,7 @@ pub fn template_sig(d: &Def) -> Option<TemplateSig> {
 }
 
 /// Prepend `{ var <p> = 0; }` (shadowing warning) and `var zu; var zw = zu + 1;` (SSA error).
-fn make_failing(d: &mut Def, ids: &mut Ids) {
+fn make_failing(d: &mut Def, ids: &mut Ids, sibling_branch: bool) {
     let Stmt::Block { stmts, .. } = &mut d.body else { return };
     let shadowed = d.params.first().cloned().unwrap_or_else(|| "zu".to_string());
     let mut pre = Vec::new();
@@ -110,12 +110,30 @@ fn make_failing(d: &mut Def, ids: &mut Ids) {
     let read = var(ids, "zu");
     let one = num(ids, 1);
     let rhs = infix(ids, crate::field::Op::Add, read, one);
-    pre.push(Stmt::Decl {
+    let use_it = Stmt::Decl {
         id: ids.next(),
         kind: DeclKind::Var,
         syms: vec![DeclSym { id: ids.next(), sub_id: ids.next(), name: "zw".into(), dims: vec![], init: Some(rhs) }],
         init_op: AssignOp::Var,
-    });
+    };
+    if sibling_branch {
+        // `if (1 > 0) { zu = 1; } else { var zw = zu + 1; }`: assigned in one branch, read in the other
+        let cond = {
+            let l = num(ids, 1);
+            let r = num(ids, 0);
+            infix(ids, crate::field::Op::Gt, l, r)
+        };
+        let lhs = var(ids, "zu");
+        let assign = Stmt::Assign { id: ids.next(), lhs, op: AssignOp::Var, rhs: num(ids, 1), reversed: false };
+        pre.push(Stmt::If {
+            id: ids.next(),
+            cond,
+            then: Box::new(Stmt::Block { id: ids.next(), stmts: vec![assign] }),
+            els: Some(Box::new(Stmt::Block { id: ids.next(), stmts: vec![use_it] })),
+        });
+    } else {
+        pre.push(use_it);
+    }
     // signal declarations stay first (templates)
     let split = stmts.iter().position(|s| !matches!(s, Stmt::Decl { kind: DeclKind::Signal(..), .. })).unwrap_or(stmts.len());
     let tail = stmts.split_off(split);
@@ -323,7 +341,8 @@ pub fn gen_project(t: &mut Tape, o: ProjOpts) -> GenProject {
             if !o.clean && t.chance(40) {
                 // a definition that fails during SSA conversion (read of a declared but never
                 // assigned variable) and also has a CFG-stage warning (shadowed parameter or local)
-                make_failing(&mut d, &mut ids);
+                let sibling = t.chance(100);
+                make_failing(&mut d, &mut ids, sibling);
                 failing_defs += 1;
                 if template {
                     failing_templates.push(name.clone());
